@@ -41,14 +41,16 @@ def forget_temp_table() -> None:
 
 
 def model_holder(store: M.Store, batch_size: int, time_buffer: int) -> sdh.SQLDataHolder:
-    h = sdh.SQLDataHolder.__new__(sdh.SQLDataHolder)
-    DataHolder.__init__(h)
-    h.node_models_to_save = []
-    h.node_relationships_to_save = []
-    h.batch_size = batch_size
-    h.time_buffer = time_buffer
-    h.engine = None  # type: ignore[assignment]
-    h.base = Base()
+    """A REAL SQLDataHolder (its own __init__ runs, so every attribute it declares exists) whose session is the model
+    session.  The constructor opens a throw-away in-memory SQLite engine; that part runs outside CrossHair tracing."""
+    from vlib.core import untraced
+
+    def make() -> sdh.SQLDataHolder:
+        h = sdh.SQLDataHolder(SQLDataHolderConfig(db_uri="sqlite:///:memory:", batch_size=batch_size, time_buffer=time_buffer))
+        h.session.close()
+        h.engine.dispose()
+        return h
+    h = untraced(make)
     h.session = M.ModelSession(store)  # type: ignore[assignment]
     return h
 
